@@ -18,5 +18,7 @@ ReportIsSpec == l = 0 \/ Mat(E.segs) = Mat(MissSegments(GotLen, E.size))
 \* also when its receiver has read another report before
 Plain(ss) == Mat([i \in 1..Len(ss) |-> [off |-> ss[i].off, len |-> ss[i].len]])
 WireExact == l = 0 \/ ~E.haswire \/ Mat(E.wire) = Mat(Body9212(E.name, 2, MissSegments(GotLen, E.size)))
+\* a report that was handed out is not changed by computing the next one (observed by the harness)
+HeldReportStable == l = 0 \/ "prevsame" \notin DOMAIN E \/ E.prevsame
 ReadBack == l = 0 \/ ~E.haswire \/ (Plain(E.parsed) = Plain(E.segs) /\ Plain(E.parsed2) = Plain(E.segs))
 =============================================================================
